@@ -308,8 +308,65 @@ fn gen_f<F: Fld>(rng: &mut Rng, n: usize, emit: &mut dyn FnMut(String)) {
     };
     let rnd_raw = |rng: &mut Rng| -> u128 { rng.u128() % rawlim };
     emit(format!("{} const", f));
-    for k in 1..=F::TWO_ADICITY {
+    for k in 0..=F::TWO_ADICITY + 2 {
         emit(format!("{} root {}", f, k));
+    }
+    // limb-structured operands: every combination of boundary half-words (64-bit fields: 32-bit
+    // halves, 128-bit field: 64-bit halves) for both operands of the multiplication, so that each
+    // carry / borrow / conditional-subtraction pattern of the reductions is reached by construction
+    {
+        let half = bits / 2;
+        let hb: Vec<u128> = {
+            let top = (1u128 << half) - 1;
+            vec![0, 1, 2, (1u128 << (half - 1)) - 1, 1u128 << (half - 1), (1u128 << (half - 1)) + 1, top - 1, top]
+        };
+        let mut limbed: Vec<u128> = vec![];
+        for h in &hb {
+            for l in &hb {
+                let v = (h << half) | l;
+                if v < rawlim {
+                    limbed.push(v);
+                }
+            }
+        }
+        // operands just below the modulus and with an all-ones low half (double-carry patterns)
+        for d in [1u128, 2, 3, 1 << 20, 1 << 40, (1 << 40) + 1, 45 << 40] {
+            if d < m {
+                limbed.push(m - d);
+            }
+        }
+        limbed.sort();
+        limbed.dedup();
+        for a in &limbed {
+            for b in &limbed {
+                emit(format!("{} rbin mul {} {}", f, a, b));
+            }
+        }
+        for _ in 0..400 {
+            // a close to p, b with random high half and low half close to all-ones
+            let a = m - 1 - (rng.u128() % (1u128 << (bits - 28)));
+            let lo_mask = (1u128 << half) - 1;
+            let b = ((rng.u128() & lo_mask) << half | (lo_mask - (rng.u64() as u128 % 1024))) % rawlim;
+            emit(format!("{} rbin mul {} {}", f, a % rawlim, b));
+        }
+    }
+    // every operation sequence of length <= 2 (and a sample of length 3) on boundary pairs: the
+    // representation invariant and ==/bytes consistency in every reachable state near zero and p
+    {
+        let ops = ["add", "sub", "mul", "neg", "dbl", "sq", "swap", "ms3", "ms", "inv", "div"];
+        let pairs: [(u128, u128); 6] = [(0, 0), (1, m - 1), (m - 1, m - 1), (2, (m + 1) / 2), (m - 1, 1), (0, 1)];
+        for (a, b) in pairs.iter() {
+            for o1 in ops.iter() {
+                emit(format!("{} seq {} {} {}", f, a, b, o1));
+                for o2 in ops.iter() {
+                    emit(format!("{} seq {} {} {} {}", f, a, b, o1, o2));
+                    if rng.chance(1, 4) {
+                        let o3 = *rng.pick(&ops);
+                        emit(format!("{} seq {} {} {} {} {}", f, a, b, o1, o2, o3));
+                    }
+                }
+            }
+        }
     }
     for op in ["add", "sub", "mul"] {
         for a in &bnd {
@@ -443,11 +500,23 @@ impl Prop for P {
     fn panic_site(&self, line: &str) -> Option<String> {
         // no public field operation may panic on elements satisfying the representation invariant
         let t: Vec<&str> = line.split(' ').collect();
+        if t.len() == 3 && t[1] == "root" {
+            // get_root_of_unity asserts 1 <= n <= TWO_ADICITY (documented); the model mirrors it
+            let n: u32 = t[2].parse().unwrap_or(1);
+            let two_adicity = match t[0] {
+                "f64" => 32,
+                "f62" => 39,
+                _ => 40,
+            };
+            if n == 0 || n > two_adicity {
+                return None;
+            }
+        }
         Some(format!("{}.{}.panic", t.first().unwrap_or(&""), t.get(1).unwrap_or(&"")))
     }
     fn rule(&self) -> &'static str {
         "boundary products (0,1,p-1,p-2,(p±1)/2,2^k±d, 2^64-2^32±d, p, p+1, 2p-1 as raw words of the 62-bit field, …) of residues and of raw internal \
-         words for every binary op, every unary op/conversion on every boundary word, exponents 2^k and 2^k±1 for every k plus the word boundaries on several bases, plus seeded random operands and random operation \
+         words for every binary op, every unary op/conversion on every boundary word, exponents 2^k and 2^k±1 for every k plus the word boundaries on several bases, multiplication operands built from every combination of boundary half-words and operands just below p with all-ones low halves, every operation sequence of length <= 2 on boundary pairs, get_root_of_unity for every n incl. the refused ones, plus seeded random operands and random operation \
          sequences (length ≤ 12); a case is non-trivial when it is distinct (hash of the op line); outputs are the canonical integer and the raw word"
     }
 }
